@@ -139,6 +139,14 @@ func (h *handler) Handle(ctx context.Context, header *protocol.RequestHeader, re
 				if strings.TrimSpace(name) == "" {
 					continue
 				}
+				// Metadata itself needs no permission, but creating a topic
+				// does: only auto-create for principals that could use the
+				// topic. Others get UNKNOWN_TOPIC_OR_PARTITION below.
+				if !h.allowTopic(principal, name, acl.ActionProduce) &&
+					!h.allowTopic(principal, name, acl.ActionFetch) &&
+					!h.allowAdmin(principal) {
+					continue
+				}
 				if err := h.ensureTopic(ctx, name, 0); err != nil {
 					if errors.Is(err, metadata.ErrInvalidTopic) {
 						// Answer for this topic with an error code instead of
